@@ -30,11 +30,11 @@ type jitterCase struct {
 
 func genJitter(t *rapid.T) jitterCase {
 	c := jitterCase{Spec: genMeshSpec(t, []string{"nest", "nest", "lattice"}, 4, 3, false)}
-	if rapid.IntRange(0, 3).Draw(t, "open") == 0 {
+	if gen.Int(t, 0, 3, "open") == 0 {
 		c.Remove = genIdx(t, 3, "remove")
 	}
 	c.EpsFrac = 1 // the largest eps the separation allows
-	if rapid.IntRange(0, 2).Draw(t, "epsmode") != 0 {
+	if gen.Int(t, 0, 2, "epsmode") != 0 {
 		c.EpsFrac = gen.LogF(t, 0.01, 1, "epsfrac")
 	}
 	c.JitFrac = rapid.SampledFrom([]float64{0.45, 0.45, 0.3, 0.1, 0}).Draw(t, "jitfrac")
@@ -158,11 +158,11 @@ type jitter2Case struct {
 
 func genJitter2(t *rapid.T) jitter2Case {
 	c := jitter2Case{Spec: genMeshSpec2(t, []string{"nest", "lattice"}, 6, 4)}
-	if rapid.IntRange(0, 3).Draw(t, "open") == 0 {
+	if gen.Int(t, 0, 3, "open") == 0 {
 		c.Remove = genIdx(t, 3, "remove")
 	}
 	c.EpsFrac = 1 // the largest eps the separation allows
-	if rapid.IntRange(0, 2).Draw(t, "epsmode") != 0 {
+	if gen.Int(t, 0, 2, "epsmode") != 0 {
 		c.EpsFrac = gen.LogF(t, 0.01, 1, "epsfrac")
 	}
 	c.JitFrac = rapid.SampledFrom([]float64{0.45, 0.45, 0.3, 0.1, 0}).Draw(t, "jitfrac")
@@ -272,9 +272,9 @@ func genNormals(t *rapid.T) normalsCase {
 		c.All = true
 		c.Flip = genIdx(t, 5, "keep")
 	case "many":
-		n := rapid.IntRange(5, 60).Draw(t, "nflip")
+		n := gen.Int(t, 5, 60, "nflip")
 		for i := 0; i < n; i++ {
-			c.Flip = append(c.Flip, rapid.IntRange(0, 4000).Draw(t, "flip"))
+			c.Flip = append(c.Flip, gen.Int(t, 0, 4000, "flip"))
 		}
 	case "all":
 		c.All = true
@@ -442,9 +442,9 @@ func genNormals2(t *rapid.T) normals2Case {
 		c.All = true
 		c.Flip = genIdx(t, 5, "keep")
 	case "many":
-		n := rapid.IntRange(5, 40).Draw(t, "nflip")
+		n := gen.Int(t, 5, 40, "nflip")
 		for i := 0; i < n; i++ {
-			c.Flip = append(c.Flip, rapid.IntRange(0, 4000).Draw(t, "flip"))
+			c.Flip = append(c.Flip, gen.Int(t, 0, 4000, "flip"))
 		}
 	case "all":
 		c.All = true
